@@ -136,6 +136,34 @@ func (w *simWriter) Write(p []byte) (int, error) {
 	return len(p), nil
 }
 
+// flushWriter is the shared destination with a Flush method, as buffered
+// destinations have (bufio.Writer and the like).  Such writers are not safe
+// for concurrent use: a Flush is one more call on the writer that the
+// handlers sharing it must serialise with their Write calls.  Nobody has a
+// reason to call it.
+type flushWriter struct{ *simWriter }
+
+func (f flushWriter) Flush() error {
+	w := f.simWriter
+	k := w.k
+	fam := -1
+	k.Ask("writer.flush.begin", func() any {
+		if t := k.LastRun(); t != nil && t.Idx < len(w.curFam) {
+			fam = w.curFam[t.Idx]
+		}
+		if w.inWrite[fam] {
+			k.Fail("overlapping-write", "JSONHybridHandler.Handle", "a Flush of the shared writer began while a Write or Flush by a handler sharing the same encoder was in progress")
+		}
+		w.inWrite[fam] = true
+
+		return nil
+	})
+	k.Yield("writer.flush.mid")
+	k.Tell("writer.flush.end", func() { w.inWrite[fam] = false })
+
+	return nil
+}
+
 var msgPool = []string{
 	"plain", "two words", "quote\"inside", "new\nline", "tab\there", "ctl\x01\x7f", "bad\xff\xfeutf8", "",
 	"back\\slash", "uni sep é", "<html>&amp;", "key=value", " lead", "trail ", "{\"json\":1}",
@@ -232,6 +260,11 @@ func run(rc *kernel.RunCtx) {
 	k.EnablePool(rc.Stats)
 
 	w := &simWriter{k: k, panicAt: -1, errAt: -1, famFailed: map[int]bool{}, inWrite: map[int]bool{}}
+	var dst io.Writer = w
+	if tp.Bool(1, 4) {
+		dst = flushWriter{w}
+		rc.Stats.Probe("writer-offers-flush")
+	}
 	if tp.Bool(1, 12) {
 		w.panicAt = tp.Choose(6)
 		rc.Stats.Fault("writer-panic-armed")
@@ -329,7 +362,7 @@ func run(rc *kernel.RunCtx) {
 		withID = tp.Bool(1, 2)
 	}
 
-	root := &node{h: slogutil.NewJSONHybridHandler(w, opts), name: "h0"}
+	root := &node{h: slogutil.NewJSONHybridHandler(dst, opts), name: "h0"}
 	nodes := []*node{root}
 	derive := func(parent *node, attrs []slog.Attr) *node {
 		n := &node{
@@ -588,7 +621,7 @@ func run(rc *kernel.RunCtx) {
 				k.Yield("op")
 				if st.newRoot {
 					inAPI[ti].Add(1)
-					own = slogutil.NewJSONHybridHandler(w, opts)
+					own = slogutil.NewJSONHybridHandler(dst, opts)
 					inAPI[ti].Add(-1)
 					k.Yield("constructed")
 				}
